@@ -4,6 +4,7 @@
 import Lean.Data.Json
 import SqlairModel.Spec.L2
 import SqlairProofs.NoPanic.Defs
+import SqlairProofs.L2Sound.C03ValsGuard
 import Driver.Json
 import Driver.L2Rows
 import SqlairModel.Spec.DriverClauses
@@ -162,7 +163,7 @@ def handleL2 (j : Json) : Except String Json := do
        ("agree", Json.bool aff.isEmpty),
        ("affects", Json.arr (aff.map Json.str).toArray),
        ("c01", Json.bool (holdsC01e2e q segs o && holdsC01exact segs o)),
-       ("c03", Json.bool ((!tagsClean tt || holdsC03 segs o) && holdsC03vals C tt segs args o && holdsC03present args o && inputsCounted && !lost.contains "C03" && !dupLost)),
+       ("c03", Json.bool ((!tagsClean tt || holdsC03 segs o) && (!c03valsGuards C tt segs args || holdsC03vals C tt segs args o) && holdsC03present args o && inputsCounted && !lost.contains "C03" && !dupLost)),
        ("c02", Json.bool (literalsVerbatim segs o && callsVerbatim)),
        ("c04", Json.bool (holdsC04rej m o && literalsVerbatim segs o && (!c04rowsGuards tt segs || holdsC04rows C tt segs args o) && !lost.contains "C04")),
        ("c05", Json.bool ((!tagsClean tt || holdsC05 segs o) && !lost.contains "C05")),
